@@ -199,5 +199,7 @@ def run(prog, rep, tier, cfg):
     # ---- error discipline: no Result produced in these crates is silently discarded
     X.no_dropped_results('K14', 'results-not-discarded', ['fil_actor_cron', 'fil_actor_power', 'fil_actor_miner', 'fil_actor_market', 'fil_actor_reward'], 'no Result of a call is discarded')
     X.tolerated_failures('K15', 'tolerated-failures', ['fil_actor_cron', 'fil_actor_power', 'fil_actor_miner', 'fil_actor_market', 'fil_actor_reward'], 'tolerated failures are the reviewed ones')
+    X.write_sites_preserved('K16', 'updates-present', 'fil_actor_miner', ['State.deadline_cron_active', 'State.current_deadline', 'State.proving_period_start', 'State.early_terminations'], 'state updates do not disappear')
+    X.write_sites_preserved('K16', 'updates-present', 'fil_actor_power', ['State.first_cron_epoch', 'State.cron_event_queue'], 'state updates do not disappear')
 
 
